@@ -104,7 +104,8 @@ Inductive ev :=
 | EDropSub (c : N)                     (* the protocol drops one substream of connection c *)
 | EOtherUp (c : N)                     (* another protocol upgrades / acquires a strong sender of c *)
 | EOtherDown (c : N)                   (* ... and releases one *)
-| EBump (n : N).                       (* other TransportServices draw n ids from the shared counter *)
+| EBump (n : N)                        (* other TransportServices draw n ids from the shared counter *)
+| EShutSub (c : N).                    (* the protocol shuts down the write half of a substream of c it keeps holding *)
 
 Inductive out :=
 | OEst (p : N)                         (* TransportEvent::ConnectionEstablished *)
@@ -317,6 +318,12 @@ Definition handle_ev (s : st) (e : ev) : st * list out :=
       | None => (s, [OSkip])
       end
   | EBump n => (with_next s (s_next s + n), [])
+  | EShutSub c =>
+      (* half-closing is not dropping: the substream keeps its lifetime permit *)
+      match find_ch c (s_chans s) with
+      | Some x => if 0 <? ch_held x then (s, []) else (s, [OSkip])
+      | None => (s, [OSkip])
+      end
   end.
 
 (* SPECIFICATION of "keep-alive activity" (independent of the handlers above): which (peer,
